@@ -209,6 +209,14 @@ def rule_cache(ctx):
         fact = "download under: %s" % [("" if p_ else "not ") + str(norm(t_)) for t_, p_ in chain]
         atoms = sorted(set(str(norm(c)) for t_, _ in chain for c in calls_in(t_, "exists")))
         want_atom = "os.path.exists(%s)" % P
+        if want_atom not in atoms and isinstance(ff[0].args[0], ast.Name):
+            # the name read below is bound to the same path on every way to the read: that path is what the test looks at
+            fl_ = Flow(f)
+            dvals = {str(norm(d_.value)) for d_ in fl_.defs(ff[0].args[0].id, enclosing_stmt(ff[0])) if d_ != "param" and isinstance(d_, ast.Assign)
+                     and len(d_.targets) == 1 and isinstance(d_.targets[0], ast.Name)}
+            if len(dvals) == 1 and len(fl_.defs(ff[0].args[0].id, enclosing_stmt(ff[0]))) >= 1 \
+                    and all(d_ != "param" and isinstance(d_, ast.Assign) for d_ in fl_.defs(ff[0].args[0].id, enclosing_stmt(ff[0]))):
+                want_atom = "os.path.exists(%s)" % dvals.pop()
         tt_ok = want_atom in atoms
         if tt_ok:
             for vals in itertools.product([False, True], repeat=len(atoms)):
